@@ -1,3 +1,5 @@
 import Petl.Val
 import Petl.Proto
+import Petl.Fields
+import Petl.Sort
 import Petl.Ops
